@@ -28,3 +28,7 @@ bool G_idem;
   __CPROVER_loop_invariant(0 <= G_possibly_sent && G_possibly_sent <= attempt && (G_idem || G_possibly_sent == 0)) \
   __CPROVER_loop_invariant(attempt > 0 ==> attempt <= retries) \
   __CPROVER_decreases(RETRIES_MAX + 1 - attempt))
+
+/* callees replaced by contracts (post.c) */
+Response HttpClient_executeRequest(HttpClient *self, iora_sv method, iora_sv url, iora_sv body, iora_hdrs headers);
+void HttpClient_ensureInitialized(HttpClient *self);
